@@ -20,7 +20,7 @@ CASES = {"quick": 400, "thorough": 8000}
 RULE = ("case = (N, M in 1..300, clock 1e6..120e6, power_on_reset, trigger script of 6-20 triggers incl. held and "
         "mid-sequence ones); non-trivial = >= 3 complete sequences observed; distinct = hash(config, trigger cycles)")
 REQUIRED_BINS = ["stop_gt_reset", "stop_lt_reset", "stop_eq_reset", "stop_crosses_pow2_of_reset", "trigger_during_reset",
-                 "trigger_during_stop", "trigger_held", "power_on", "no_power_on", "n_is_1", "m_is_1"]
+                 "trigger_during_stop", "trigger_held", "power_on", "no_power_on", "n_is_1", "m_is_1", "max_length_exact_power_of_two"]
 REQUIRED_EVENTS = ["reset_pulses_measured", "stop_tails_measured", "cycles_monitored", "triggers_while_idle"]
 ASSUMPTIONS = ["cycle counts are set through lengths (n-0.5)/f so that ceil() is unambiguous",
                "trigger-to-reset latency is only required to be <= 2 cycles"]
@@ -28,7 +28,7 @@ ASSUMPTIONS = ["cycle counts are set through lengths (n-0.5)/f so that ceil() is
 
 def run_case(rng, tier, res):
     from luna.gateware.architecture.car import PHYResetController
-    kind = rng.choice(["gt", "gt", "lt", "eq", "pow2", "pow2", "small"])
+    kind = rng.choice(["gt", "gt", "lt", "eq", "pow2", "pow2", "small", "exact_pow2", "exact_pow2"])
     if kind == "gt":
         n = rng.randint(1, 100); m = rng.randint(n + 1, 300)
     elif kind == "lt":
@@ -39,6 +39,12 @@ def run_case(rng, tier, res):
         k = rng.randint(1, 7)
         n = rng.randint(max(1, (1 << (k - 1)) + (0 if k > 1 else 0)), (1 << k))   # needs k bits (or so)
         m = rng.randint((1 << k) + 1, min(300, (1 << (k + 1)) + 8))
+    elif kind == "exact_pow2":
+        # the longer of the two lengths is exactly a power of two (counter-width boundary), the other anything below or equal
+        big = 1 << rng.randint(0, 8)
+        small = rng.choice([big, max(1, big - 1), max(1, big // 2), rng.randint(1, big)])
+        n, m = (big, small) if rng.random() < 0.5 else (small, big)
+        res.bin("max_length_exact_power_of_two")
     else:
         n = rng.randint(1, 3); m = rng.randint(1, 6)
     f = rng.choice([1e6, 12e6, 48e6, 60e6, 100e6, 120e6, rng.uniform(1e6, 120e6)])
@@ -95,7 +101,7 @@ def run_case(rng, tier, res):
                 res.bin("trigger_during_reset")
             if rst:
                 st["count"] += 1
-                if st["count"] > n + 2 and st["count"] > 3 * n + 700:
+                if st["count"] > n + 8:
                     res.violation("reset_never_ends", "N=%d M=%d phy_reset still high after %d cycles" % (n, m, st["count"]))
                     st["stuck"] = True
             else:
@@ -115,7 +121,7 @@ def run_case(rng, tier, res):
                 st["phase"], st["count"] = "reset", 1
             elif stop:
                 st["count"] += 1
-                if st["count"] > m + 700:
+                if st["count"] > m + 8:
                     res.violation("stop_never_ends", "N=%d M=%d phy_stop still high %d cycles after reset fell (never returns to idle)" % (n, m, st["count"]))
                     st["stuck"] = True
             else:
